@@ -140,6 +140,12 @@ def runVStmt (sz : Sizes) (get : Kw → Except Err Val) : VStmt → Except Err U
     match readAll get (lhs.params ++ rhs.params) with
     | .error e => .error e
     | .ok _ => if cmp.holds (lhs.eval (bEnv sz get)) (rhs.eval (bEnv sz get)) then runCheck sz get c else .ok ()
+  | .checkValue e p orThrow =>
+    match readAll get (e.params ++ p.params) with
+    | .error err => .error err
+    | .ok _ =>
+      if p.holds (bEnv sz get) (e.eval (bEnv sz get)) then .ok ()
+      else if orThrow then .error (errS .wrong_parameter_error) else .ok ()
 
 /-! ## the counting monad -/
 
